@@ -291,8 +291,26 @@ func rbOpen(x *vsched.Exec, w *World, kind string) *rbVictim {
 	return v
 }
 
-func rbBody(kind string, script []rbInput) vsched.Body {
+// offenders remembers, per failure class, the inputs that fail on their own: a longer script that
+// contains one of them is attributed to that input, so that fingerprints name the offending input.
+func rbBody(kind string, script []rbInput, offenders map[string]bool) vsched.Body {
 	return func(x *vsched.Exec) {
+		attribute := func(class string) string {
+			for _, in := range script {
+				if offenders[class+"|"+in.name] {
+					return in.name
+				}
+			}
+			if len(script) == 1 {
+				offenders[class+"|"+script[0].name] = true
+				return script[0].name
+			}
+			var n []string
+			for _, in := range script {
+				n = append(n, in.name)
+			}
+			return strings.Join(n, ";")
+		}
 		o := config.DefaultServerOptions()
 		o.SetAllowEIO3(true)
 		o.SetTransports(types.NewSet("polling", "websocket", "webtransport"))
@@ -330,24 +348,24 @@ func rbBody(kind string, script []rbInput) vsched.Body {
 		}
 		x.Run(x.Now() + 2*time.Second)
 		work := x.Ticks() - ticks0
-		cls := fmt.Sprintf("[%s %s]", kind, names[len(names)-1])
+		clsOf := func(class string) string { return fmt.Sprintf("[%s %s]", kind, attribute(class)) }
 		for _, t := range x.Panics() {
 			if vsched.IsHang(t.Panic) {
-				x.Fail("hang%s: thread %s exceeded the work budget (10^7 loop iterations) (%s)\n%s", cls, t.Name, id, trimStack(t.Stack))
+				x.Fail("hang%s: thread %s exceeded the work budget (10^7 loop iterations) (%s)\n%s", clsOf("hang"), t.Name, id, trimStack(t.Stack))
 			} else {
-				x.Fail("panic%s: thread %s: %v (%s)\n%s", cls, t.Name, t.Panic, id, trimStack(t.Stack))
+				x.Fail("panic%s: thread %s: %v (%s)\n%s", clsOf("panic"), t.Name, t.Panic, id, trimStack(t.Stack))
 			}
 		}
 		// work in proportion to the bytes received (loop iterations of the engine and its parser)
 		if limit := int64(3000*len(script) + 400*bytes + 20000); work > limit {
-			x.Fail("work-out-of-proportion%s: %d loop iterations for %d client bytes in %d inputs (bound %d) (%s)", cls, work, bytes, len(script), limit, id)
+			x.Fail("work-out-of-proportion%s: %d loop iterations for %d client bytes in %d inputs (bound %d) (%s)", clsOf("work-out-of-proportion"), work, bytes, len(script), limit, id)
 		}
 		// every request of the script was answered and its handler returned, unless it is the one poll an open session holds
 		pendingPolls := 0
 		for _, r := range v.reqs {
 			if r.Returned {
 				if r.HeaderCalls > 1 {
-					x.Fail("double-response%s: %s answered twice (%s)", cls, r.Desc, id)
+					x.Fail("double-response%s: %s answered twice (%s)", clsOf("double-response"), r.Desc, id)
 				}
 				continue
 			}
@@ -358,34 +376,34 @@ func rbBody(kind string, script []rbInput) vsched.Body {
 				pendingPolls++
 				continue
 			}
-			x.Fail("handler-stuck%s: %s was never answered, its handler is still blocked (session %s) (%s)", cls, r.Desc, stateOf(v.rec), id)
+			x.Fail("handler-stuck%s: %s was never answered, its handler is still blocked (session %s) (%s)", clsOf("handler-stuck"), r.Desc, stateOf(v.rec), id)
 		}
 		if pendingPolls > 1 {
-			x.Fail("handler-stuck%s: %d polls of one session outstanding (%s)", cls, pendingPolls, id)
+			x.Fail("handler-stuck%s: %d polls of one session outstanding (%s)", clsOf("handler-stuck"), pendingPolls, id)
 		}
 		// threads of a connection that is gone must be gone too
 		if v.rec != nil && v.rec.Count("close") > 0 || (v.cand != nil && v.cand.ServerClosed()) || (v.ws != nil && v.ws.ServerClosed()) {
 			for _, t := range x.Live() {
 				if strings.Contains(t.Name, "transports/websocket.go") || strings.Contains(t.Name, "transports/webtransport.go") {
 					// the victim is the only websocket/webtransport connection of the execution
-					x.Fail("goroutine-stuck%s: thread %s outlived its connection (%s)", cls, t.Name, id)
+					x.Fail("goroutine-stuck%s: thread %s outlived its connection (%s)", clsOf("goroutine-stuck"), t.Name, id)
 				}
 			}
 		}
 		// only the offending session may close; the canary keeps working
 		for _, s := range w.Socks {
 			if s != v.rec && s.Count("close") != 0 {
-				x.Fail("collateral-close%s: another session closed with %v (%s)", cls, s.CloseReasons(), id)
+				x.Fail("collateral-close%s: another session closed with %v (%s)", clsOf("collateral-close"), s.CloseReasons(), id)
 			}
 		}
 		before := len(crec.Messages())
 		p2 := canary.Post([]Pkt{Msg("c")})
 		x.Run(x.Now() + time.Second)
 		if !p2.wrote || p2.Code != 200 || len(crec.Messages()) != before+1 {
-			x.Fail("canary-broken%s: the other session's round trip failed: status %d (%s)", cls, p2.Code, id)
+			x.Fail("canary-broken%s: the other session's round trip failed: status %d (%s)", clsOf("canary-broken"), p2.Code, id)
 		}
 		if n := int(w.Srv.ClientsCount()); n != liveCount(w) {
-			x.Fail("registry-drift%s: ClientsCount=%d, %d sessions not closed (%s)", cls, n, liveCount(w), id)
+			x.Fail("registry-drift%s: ClientsCount=%d, %d sessions not closed (%s)", clsOf("registry-drift"), n, liveCount(w), id)
 		}
 		x.Outcome = fmt.Sprintf("victim=%s work=%d", stateOf(v.rec), work/1000)
 	}
@@ -430,6 +448,7 @@ func init() {
 		k := k
 		register("C09", "scripts/"+k.kind, false, func(c *Ctx) {
 			ins := k.inputs()
+			offenders := map[string]bool{}
 			n := 0
 			run := func(script []rbInput) {
 				var names []string
@@ -438,7 +457,7 @@ func init() {
 				}
 				n++
 				id := fmt.Sprintf("%s | %s", k.kind, strings.Join(names, " ; "))
-				c.Once(id, rbBody(k.kind, script))
+				c.Once(id, rbBody(k.kind, script, offenders))
 				if n%257 == 1 {
 					c.Sample(id)
 				}
